@@ -37,12 +37,24 @@ class _Comp:
     def __init__(self, variables):
         self.idx = {v.get_id(): i for i, v in enumerate(variables)}
         self.memo = {}
+        self.epoch = 0
 
     def num(self, t):
         k = t.get_id()
         if k in self.memo:
             return self.memo[k]
         f = self._num(t)
+        if t.num_args() > 0:
+            # terms are DAGs: evaluate every shared node once per point (epoch), not once per
+            # occurrence (a tree walk is exponential in the sharing depth)
+            inner, slot, comp = f, [-1, 0.0], self
+
+            def f(x, inner=inner, slot=slot, comp=comp):
+                if slot[0] == comp.epoch:
+                    return slot[1]
+                v = inner(x)
+                slot[0], slot[1] = comp.epoch, v
+                return v
         self.memo[k] = f
         return f
 
@@ -160,6 +172,10 @@ class _Comp:
         raise NotImplementedError(str(t.decl()))
 
 
+class _OutOfTime(Exception):
+    pass
+
+
 def find_model(constraints, negated_claim, seed=0, starts=24, budget_s=20.0):
     """returns {z3 var: float} with all constraints and the negated claim satisfied up to
     1e-7 penalty, or None."""
@@ -175,7 +191,14 @@ def find_model(constraints, negated_claim, seed=0, starts=24, budget_s=20.0):
     except NotImplementedError:
         return None
 
+    t0 = time.time()
+    calls = [0]
+
     def total(x):
+        comp.epoch += 1
+        calls[0] += 1
+        if calls[0] % 32 == 0 and time.time() - t0 > budget_s:
+            raise _OutOfTime()
         try:
             s = 0.0
             for p in pens:
@@ -187,7 +210,6 @@ def find_model(constraints, negated_claim, seed=0, starts=24, budget_s=20.0):
         except (OverflowError, ZeroDivisionError, ValueError):
             return 1e30
     rng = random.Random(seed)
-    t0 = time.time()
     for k in range(starts):
         if time.time() - t0 > budget_s:
             break
@@ -198,8 +220,11 @@ def find_model(constraints, negated_claim, seed=0, starts=24, budget_s=20.0):
             r2 = minimize(total, x, method="Powell", options={"maxiter": 4000, "xtol": 1e-12, "ftol": 1e-20})
             if r2.fun < r.fun:
                 x = r2.x
+        except _OutOfTime:
+            return None
         except Exception:  # noqa: BLE001
             continue
+        calls[0] = 1
         if total(x) < 1e-14:
             return {v: float(x[i]) for i, v in enumerate(variables)}
     return None
